@@ -674,3 +674,46 @@ func AllEdgesGuarded(b *ssa.BasicBlock, match func(g Guard) bool) bool {
 	}
 	return true
 }
+
+// negCmp maps a comparison operator to its negation.
+var negCmp = map[token.Token]token.Token{token.LSS: token.GEQ, token.GEQ: token.LSS, token.GTR: token.LEQ, token.LEQ: token.GTR, token.EQL: token.NEQ, token.NEQ: token.EQL}
+
+// mirrorCmp maps "a op b" to the operator of the equivalent "b op' a".
+var mirrorCmp = map[token.Token]token.Token{token.LSS: token.GTR, token.GTR: token.LSS, token.LEQ: token.GEQ, token.GEQ: token.LEQ, token.EQL: token.EQL, token.NEQ: token.NEQ}
+
+// Cmp returns the comparison the guard establishes with its polarity folded
+// in: the guard "!(a < b)" yields (>=, a, b). ok is false when the condition
+// is not a comparison.
+func (g Guard) Cmp() (op token.Token, x, y ssa.Value, ok bool) {
+	b, isB := g.Cond.(*ssa.BinOp)
+	if !isB {
+		return 0, nil, nil, false
+	}
+	if _, isCmp := negCmp[b.Op]; !isCmp {
+		return 0, nil, nil, false
+	}
+	op = b.Op
+	if !g.Pol {
+		op = negCmp[op]
+	}
+	return op, b.X, b.Y, true
+}
+
+// CmpIs reports whether the guard establishes "X op Y" for operands accepted
+// by mx and my, in either spelling ("X op Y", "Y op' X") and either branch
+// polarity ("!(X negop Y)").
+func (g Guard) CmpIs(op token.Token, mx, my func(ssa.Value) bool) bool {
+	o, x, y, ok := g.Cmp()
+	if !ok {
+		return false
+	}
+	if o == op && mx(x) && my(y) {
+		return true
+	}
+	return mirrorCmp[o] == op && mx(y) && my(x)
+}
+
+// RenderIs returns a predicate matching values whose canonical rendering is s.
+func RenderIs(s string) func(ssa.Value) bool {
+	return func(v ssa.Value) bool { return Render(v) == s }
+}
